@@ -124,6 +124,9 @@ def check(model, rep):
             break
         msg = msg or ('not the congruence sum over every link with one index, from a zero matrix: ' + why)
     rep.ob('R08.2', mmf, 'M = sum_i J_i^T G_i J_i', ok, msg)
+    # ... and the link Jacobians it sums are what the name says, computed from the arguments of the call (no value kept between calls)
+    from .c06 import jacobian_link_rule
+    jacobian_link_rule(model, rep, 'R08.2', arm)
 
     # ---------------------------------------------------------------- R08.3
     rep.rule('R08.3', 'arm-level zero patterns; kernel call sites: argument order, Wrench payload vs 1-D Ftip, unpack arity')
